@@ -340,7 +340,8 @@ def exercise_nlri(ctx: Ctx, x, src: str, text: str | None = None, laws_only=None
 
 
 def wire_neighbours(ctx: Ctx, y, b: bytes, afi, safi, send: bool, neg, label: str, sub, src: str, sname: str) -> None:
-    """every NLRI one octet away from b (each position: low bit, high bit, +1, zero) which still decodes to its end is held
+    """every NLRI one octet away from b (each position: low bit, high bit, +1, zero, 255, 128, 32, x4, /4 - the last ones turn one
+    legal length octet into another) which still decodes to its end is held
     against y: an __eq__ or __hash__ which leaves out ONE field that index() keeps (or the reverse) shows on the neighbour
     which differs in that field only - systematically, not when two random objects happen to be that close"""
     from exabgp.bgp.message.update.nlri.nlri import NLRI
@@ -352,9 +353,9 @@ def wire_neighbours(ctx: Ctx, y, b: bytes, afi, safi, send: bool, neg, label: st
     ctx.neigh[k] = n + 1
     seen = set()
     for i in range(len(b)):
-        for op in range(4):
+        for op in range(9):
             m = bytearray(b)
-            m[i] = (m[i] ^ 1, m[i] ^ 0x80, (m[i] + 1) & 0xFF, 0)[op]
+            m[i] = (m[i] ^ 1, m[i] ^ 0x80, (m[i] + 1) & 0xFF, 0, 0xFF, 0x80, 0x20, (m[i] << 2) & 0xFF, m[i] >> 2)[op]
             mb = bytes(m)
             if mb == b or mb in seen:
                 continue
